@@ -94,9 +94,10 @@ static void * tbody(void * a) {
       /* delete the key created by the op this one refers to (index in dt) */
       int k = P.op[t][o->dt].key;
       if (k < 0 || !live[k] || owner_thread[k] != t) break;
+      live[k] = 0;   /* before the call: once the library has released the index another thread may be handed it at once */
       int rc = myth_key_delete(k);
       if (rc) mt_fail("key_delete(%d) returned %d for a live key", k, rc);
-      live[k] = 0; P.op[t][o->dt].key = -1; st_kd++;
+      P.op[t][o->dt].key = -1; st_kd++;
       break; }
     case T_SET_OOR: {
       int k = (int[]){ -1, NKEYS, NKEYS + 1, -1000, 0x7fffffff, 4096 }[o->key % 6];
@@ -195,7 +196,7 @@ static void run_tls(mt_case * c, int prop) {
     memcpy(P.op, op_saved, sizeof op_saved);
     int log0 = ndlog;
     myth_thread_t th[4];
-    for (int t = 0; t < P.NT; t++) Z0(myth_create_ex(&th[t], 0, tbody, (void *)(intptr_t)t));
+    for (int t = 0; t < P.NT; t++) Z0(mt_create(&th[t], tbody, (void *)(intptr_t)t));
     for (int t = 0; t < P.NT; t++) {
       void * rv = 0; Z0(myth_join(th[t], &rv)); mv_progress();
       if (P.exitmode[t] != E_CANCEL && rv != (void *)(intptr_t)(t + 1)) mt_fail("thread %d join value %p", t, rv);
